@@ -314,8 +314,16 @@ func cmdCheck(args []string) int {
 			}
 		}
 	}
+	failedFns := map[string]bool{}
+	for _, o := range failed {
+		failedFns[o.Fn] = true
+	}
 	for fn, n := range deadRets {
-		if n == allRets[fn] {
+		// every return unreachable means a contradictory contract - unless an
+		// obligation of the function already failed (a failed assertion is assumed
+		// after it is checked, which cuts the paths behind it): then the failed
+		// obligation is the report
+		if n == allRets[fn] && !failedFns[fn] {
 			for _, o := range canaries {
 				if o.Fn == fn && o.Status == "failed" {
 					errored = append(errored, o)
